@@ -193,6 +193,8 @@ package memguard
 //@   ensures [C11,C12:a-reader-releases-exactly-what-it-acquired] myreads(s) == old(myreads(s))
 //@   ensures [C11,C12:a-reader-releases-only-what-it-acquired] retis(release, 1, 0, ret(release, 1, 0)) ==> retis(access, 1, 0, nil)
 //@   ensures [C11:callback-runs-only-between-access-and-release] retis(action, 1, 0, ret(action, 1, 0)) ==> retis(access, 1, 0, nil) && retis(release, 1, 0, ret(release, 1, 0))
+//@   ensures [C11:no-callback-means-an-error] !called(action, 1) ==> err != nil && len(ret) == 0
+//@   ensures [C11:results-are-the-callback-s-unless-release-fails] called(action, 1) ==> ret == ret(action, 1, 0) && (err == ret(action, 1, 1) || err != nil)
 //@   ensures [C11:lock-released] *s.rw == 0
 
 //@ func (*secret).WithBytes
@@ -205,4 +207,6 @@ package memguard
 //@   ensures [C11,C12:a-reader-releases-exactly-what-it-acquired] myreads(s) == old(myreads(s))
 //@   ensures [C11,C12:a-reader-releases-only-what-it-acquired] retis(release, 1, 0, ret(release, 1, 0)) ==> retis(access, 1, 0, nil)
 //@   ensures [C11:callback-runs-only-between-access-and-release] retis(action, 1, 0, ret(action, 1, 0)) ==> retis(access, 1, 0, nil) && retis(release, 1, 0, ret(release, 1, 0))
+//@   ensures [C11:no-callback-means-an-error] !called(action, 1) ==> err != nil
+//@   ensures [C11:error-is-the-callback-s-unless-release-fails] called(action, 1) ==> (err == ret(action, 1, 0) || err != nil)
 //@   ensures [C11:lock-released] *s.rw == 0
